@@ -148,6 +148,31 @@ func extractReceiverInfo(pass *analysis.Pass, funcDecl *ast.FuncDecl) *receiverI
 	}
 }
 
+// fieldOwnerType returns the type whose field the selector x.f denotes: the type of x or, when f is
+// promoted through embedded fields (x.f standing for x.E.f), the type of the innermost embedded field.
+func fieldOwnerType(pass *analysis.Pass, selector *ast.SelectorExpr) types.Type {
+	xType := pass.TypesInfo.TypeOf(selector.X)
+
+	selection := pass.TypesInfo.Selections[selector]
+	if selection == nil || selection.Kind() != types.FieldVal {
+		return xType
+	}
+
+	owner := selection.Recv()
+	path := selection.Index()
+	for _, fieldIndex := range path[:len(path)-1] {
+		if ptr, ok := owner.Underlying().(*types.Pointer); ok {
+			owner = ptr.Elem()
+		}
+		structType, ok := owner.Underlying().(*types.Struct)
+		if !ok || fieldIndex >= structType.NumFields() {
+			return xType
+		}
+		owner = structType.Field(fieldIndex).Type()
+	}
+	return owner
+}
+
 func checkAssignment(
 	ctx *checkerContext,
 	node *ast.AssignStmt,
@@ -189,7 +214,7 @@ func checkFieldAssignment(
 	selector *ast.SelectorExpr,
 ) *ImmutableViolation {
 	// Get type of the receiver (t in t.field)
-	receiverType := ctx.pass.TypesInfo.TypeOf(selector.X)
+	receiverType := fieldOwnerType(ctx.pass, selector)
 	if receiverType == nil {
 		return nil
 	}
@@ -243,7 +268,7 @@ func checkIndexAssignment(
 		return nil
 	}
 
-	receiverType := ctx.pass.TypesInfo.TypeOf(selector.X)
+	receiverType := fieldOwnerType(ctx.pass, selector)
 	if receiverType == nil {
 		return nil
 	}
@@ -319,7 +344,7 @@ func checkFieldIncDec(
 	node *ast.IncDecStmt,
 	selector *ast.SelectorExpr,
 ) *ImmutableViolation {
-	receiverType := ctx.pass.TypesInfo.TypeOf(selector.X)
+	receiverType := fieldOwnerType(ctx.pass, selector)
 	if receiverType == nil {
 		return nil
 	}
@@ -448,7 +473,7 @@ func checkCompoundLHS(
 		return nil
 	}
 
-	receiverType := ctx.pass.TypesInfo.TypeOf(selector.X)
+	receiverType := fieldOwnerType(ctx.pass, selector)
 	if receiverType == nil {
 		return nil
 	}
